@@ -9,6 +9,7 @@ import GqlProofs.Format.SchemaDocOf
 import GqlProofs.Format.ReloadExamples
 import GqlProofs.Format.LoadedPrintableDoc
 import GqlProofs.Props.C06
+import GqlProofs.EndToEnd.ParsedSchemaShape
 /-
   Property C13 — format ∘ load round trip for schemas.
 
@@ -42,6 +43,7 @@ import GqlProofs.Props.C06
         d'.erasePos = (setBuiltIn b (normSchemaDoc cfg d)).erasePos`
     `C13_format_roundtrip_parsed`: the same for every document the parser returned.
 
+<<<<<<< HEAD
   LOADED SCHEMAS (`FormatSchema`, second half of the property):
     `C13_schema_text_is_raw_document_text : fmtSchema cfg s = fmtSchemaDoc cfg (docOfSchemaRaw s)` — `FormatSchema`
       prints a DOCUMENT (schema definition / `extend schema` as the formatter decides, directive and type
@@ -61,6 +63,18 @@ import GqlProofs.Props.C06
       `C13_schema_linebreak_indent_counterexample`; NEW FINDINGS `C13_schema_hidden_fields_counterexample`
       (`scalar Query` prints `scalar Query {⏎}`), `C13_schema_reload_needs_no_builtin_extension`
       (`extend type __Type { … }` is lost).
+=======
+  END TO END, over source texts (`EndToEnd/ParsedSchemaShape.lean`: one traversal of the schema parser
+  model over the tokens of the lexer model):
+    `C13_parsed_formattable`: every document the schema parser returns (any limit, source index,
+        `BuiltIn` flag) from a well-formed UTF-8 source is `FormattableSchema`;
+    `C13_format_roundtrip_source`: so for every well-formed UTF-8 source text the parser accepts, the
+        formatted text of the parsed document parses again to the normalised document up to
+        positions — no hypothesis on the document is left.
+    The hypothesis "well-formed UTF-8" is needed: the parser accepts the description `"\xFF"` (Lean
+    driver: `ps -1 22ff22207363616c61722053` answers a scalar `S` with description `xff`), and
+    `FormattableSchema` asks descriptions to be well-formed UTF-8 (`strRaw`).
+>>>>>>> ag-endtoend
 
   NOT proved (kept so that nothing is weakened silently):
     theorem C13_doc_fixpoint … : fmtSchemaDoc cfg d' = fmtSchemaDoc cfg d
@@ -324,6 +338,7 @@ theorem C13_description_newline_indent_counterexample :
     blockStringValue (descBody [10] [97, 10, 98]) = [97, 10, 10, 98] ∧
     blockStringValue (descBody [44] [101]) = [44, 101, 10, 44] := by decide
 
+<<<<<<< HEAD
 /-! ### loaded schemas: `FormatSchema` prints a document -/
 
 /-- (1, raw) The text `FormatSchema` writes for a schema is, byte for byte, the text
@@ -661,3 +676,32 @@ end Witnesses
 #print axioms C13_schema_reload_needs_no_builtin_extension
 #print axioms C13_schema_not_a_fixpoint_counterexample
 #print axioms C13_schema_linebreak_indent_counterexample
+=======
+
+/- ======================= END TO END: over source texts ======================= -/
+
+/-- `FormattableSchema` is an invariant of parser output: in every document the schema parser model
+    returns (with or without token limit, any source index and `BuiltIn` flag) from a well-formed
+    UTF-8 source, names are lexer Names, Int / Float raw texts are number lexemes of their kind,
+    descriptions are well-formed UTF-8, every definition has only the parts of its kind, extensions
+    carry no description, directive definitions have a location, and no field is hidden (every
+    recorded position is on a line ≥ 1). -/
+theorem C13_parsed_formattable (L src : Nat) (b : Bool) (inp : Bytes) (d : SchemaDoc) (hv : Utf8.valid inp)
+    (hp : parseSchemaSrc L src b inp = .ok d) : FormattableSchema d :=
+  Gql.EndToEnd.parsedSchema_formattable L src b inp d hv hp
+
+/-- **C13 END TO END**: for every well-formed UTF-8 source text that the schema parser accepts (any
+    limit `L`, as source `src0` with `BuiltIn` flag `b0`), the formatted text of the parsed document
+    parses again (as any source `src` with any flag `b`), to the normalised document up to positions —
+    for every configuration whose indentation consists of spaces and tabs.  No hypothesis on the
+    document is left. -/
+theorem C13_format_roundtrip_source {cfg : Cfg} (hind : AllBlank cfg.indent) (L src0 : Nat) (b0 : Bool) (inp : Bytes)
+    (d : SchemaDoc) (hv : Utf8.valid inp) (hp : parseSchemaSrc L src0 b0 inp = .ok d) (src : Nat) (b : Bool) :
+    ∃ d', parseSchemaSrc 0 src b (fmtSchemaDoc cfg d) = .ok d' ∧
+      d'.erasePos = (setBuiltIn b (normSchemaDoc cfg d)).erasePos :=
+  C13_format_roundtrip_parsed hind src0 b0 inp d (parseSchemaSrc_mono (stricter_zero L) src0 b0 inp d hp)
+    (C13_parsed_formattable L src0 b0 inp d hv hp) src b
+
+#print axioms C13_parsed_formattable
+#print axioms C13_format_roundtrip_source
+>>>>>>> ag-endtoend
